@@ -120,6 +120,7 @@ Definition scan_inv1 (t1 : utree) (done : list (list nat * utree)) (st : mp_stat
   end.
 
 Theorem reroot_midpoint_first_tip t t' :
+  2 <= degree (unroot t) ->
   reroot_midpoint t = Ok t' ->
   let t1 := unroot t in
   exists d1 q lf d2 v pA cur ea,
@@ -129,7 +130,7 @@ Theorem reroot_midpoint_first_tip t t' :
     (forall pn l, In pn d2 -> ecc t1 pn l -> (l <= cur)%Q) /\
     edge_at (tv_tree v) (tv_slot v) = Some ea /\ mp_result v pA cur ea = Some t'.
 Proof.
-  unfold reroot_midpoint. cbv zeta.
+  intros D0. rewrite (reroot_midpoint_gen_eq t D0). unfold reroot_midpoint_gen.
   set (t1 := unroot t).
   set (f := fun (st : res (mp_state * Q)) (pn : list nat * utree) => _).
   assert (FE : forall l m, fold_left f l (Err m) = Err m) by (induction l; simpl; auto).
